@@ -75,7 +75,7 @@ type mutantResult struct {
 }
 
 // thoroughExtras: second build configuration and the overlay self-test.
-func thoroughExtras(c *Ctx, check func(*Ctx), prop, repo string) {
+func thoroughExtras(c *Ctx, check func(*Ctx), prop, repo, verifDir string) {
 	// (a) second configuration: GOARCH=386 (covers build-tagged variants and 32-bit sizes)
 	if p2, err := loadProg(repo, nil, "GOARCH=386"); err != nil {
 		c.R.Undecided("CONFIG", "GOARCH=386", "-", "the repository does not load for GOARCH=386: "+err.Error())
@@ -104,6 +104,10 @@ func thoroughExtras(c *Ctx, check func(*Ctx), prop, repo string) {
 			}
 		}
 	}
+	// the independently written changes archived under seeded/ for this property
+	for _, sc := range listSeeded(verifDir, prop) {
+		todo = append(todo, selfMutant{Name: "seeded:" + sc.ID, Props: []string{prop}, Rule: "*", At: ""})
+	}
 	results := make([]mutantResult, len(todo))
 	var wg sync.WaitGroup
 	sem := make(chan struct{}, 8)
@@ -113,7 +117,7 @@ func thoroughExtras(c *Ctx, check func(*Ctx), prop, repo string) {
 			defer wg.Done()
 			sem <- struct{}{}
 			defer func() { <-sem }()
-			cmd := exec.Command(os.Args[0], "-prop", prop, "-repo", repo, "-mutant", m.Name)
+			cmd := exec.Command(os.Args[0], "-prop", prop, "-repo", repo, "-verif", verifDir, "-mutant", m.Name)
 			out, _ := cmd.CombinedOutput()
 			res := mutantResult{Name: m.Name, Expect: m.Rule, At: m.At}
 			text := string(out)
@@ -134,7 +138,13 @@ func thoroughExtras(c *Ctx, check func(*Ctx), prop, repo string) {
 					hit := strings.TrimPrefix(line, "MUT-HIT ")
 					res.Hits = append(res.Hits, hit)
 					parts := strings.SplitN(hit, "|", 2)
-					if len(parts) == 2 && parts[0] == m.Rule && strings.Contains(parts[1], m.At) {
+					if len(parts) == 2 && (parts[0] == m.Rule || m.Rule == "*") && strings.Contains(parts[1], m.At) {
+						// for the archived changes any report that the unchanged tree does not have counts
+						if m.Rule == "*" {
+							if prev, ok := c.R.seen[parts[0]+"|"+parts[1]]; ok && prev.st != Discharged {
+								continue
+							}
+						}
 						res.Verdict = "killed"
 					} else if res.Verdict == "missed" {
 						res.Verdict = "killed-by-other-rule"
@@ -159,19 +169,35 @@ func thoroughExtras(c *Ctx, check func(*Ctx), prop, repo string) {
 	}
 	wg.Wait()
 	sort.Slice(results, func(i, j int) bool { return results[i].Name < results[j].Name })
-	killed, missed, na := 0, 0, 0
+	killed, missed, na, documented := 0, 0, 0, 0
 	for _, r := range results {
 		switch r.Verdict {
 		case "killed", "killed-by-other-rule":
 			killed++
 		case "n/a", "no-compile":
 			na++
+		case "missed":
+			if why, ok := seededExpectedMiss[strings.TrimPrefix(r.Name, "seeded:")]; ok {
+				documented++
+				results[idx(results, r.Name)].Verdict = "not-detectable (documented): " + why
+				continue
+			}
+			fallthrough
 		default:
 			missed++
 			fmt.Printf("SELFTEST-MISS property=%s mutant=%s expected %s at %s; fired: %v\n", prop, r.Name, r.Expect, r.At, r.Hits)
 		}
 	}
-	c.R.Extra["self_test"] = map[string]any{"mutants": len(results), "killed": killed, "missed": missed, "not_applicable": na, "matrix": results,
+	c.R.Extra["self_test"] = map[string]any{"mutants": len(results), "killed": killed, "missed": missed, "not_applicable": na, "documented_undetectable": documented, "matrix": results,
 		"note": "each mutant is a one-edit variant of the current sources applied in memory (packages overlay) and analysed in a child process; 'killed' = the named rule reported the named construct"}
-	fmt.Printf("self-test: %d mutants, %d killed, %d missed, %d n/a\n", len(results), killed, missed, na)
+	fmt.Printf("self-test: %d mutants (incl. the archived seeded changes), %d killed, %d missed, %d n/a, %d documented as not detectable\n", len(results), killed, missed, na, documented)
+}
+
+func idx(rs []mutantResult, name string) int {
+	for i := range rs {
+		if rs[i].Name == name {
+			return i
+		}
+	}
+	return 0
 }
